@@ -25,11 +25,11 @@ Theorem C12_decode_encode :
   decode_call sjis_dec gen_codec sig r = Ok (args, []).
 Proof. exact (fun e d rp h1 h2 => decode_encode e d rp h1 h2 gen_codec gen_codec_ok). Qed.
 
-(* (2) values that do not fit are diagnosed, not silently changed: once every narrowing cast of the
-       table is range-checked, ANY well-typed argument list that encode_args accepts without a warning
-       reads back exactly (so an integer outside its field's range cannot be accepted) ... *)
+(* (2) values that do not fit are diagnosed, not silently changed: every narrowing cast of the table is
+       range-checked (side condition [all_checked gen_codec], discharged by computation on the generated
+       table), so ANY well-typed argument list that encode_args accepts without a warning reads back
+       exactly -- an integer outside its field's range, or outside i16 for a timeline arg0, cannot be accepted. *)
 Theorem C12_no_silent_change :
-  all_checked gen_codec = true ->
   forall (sjis_enc : list Z -> option bytes) (sjis_dec : bytes -> option (list Z)) (repertoire : Z -> bool),
   (forall s b, forallb repertoire s = true -> sjis_enc s = Some b -> sjis_dec b = Some s) ->
   (forall s b, sjis_enc s = Some b -> In 0 b -> In 0 s) ->
@@ -39,49 +39,30 @@ Theorem C12_no_silent_change :
   encode_args sjis_enc gen_codec has_regs sig args st = Ok (r, st') ->
   r_warn r = [] -> zlen (r_blob r) < 2 ^ 32 ->
   decode_call sjis_dec gen_codec sig r = Ok (args, []).
-Proof. exact (fun hc e d rp h1 h2 => no_silent_change e d rp h1 h2 gen_codec gen_codec_ok hc). Qed.
-
-(* ... and on a tree where some narrowing cast is an unchecked `as _` the statement is false:
-   `ins_900(70000, 300, -200)` with signature `sbc` is accepted and reads back as (4464, 44, 56). *)
-Theorem C12_no_silent_change_refuted : all_checked gen_codec = false -> narrowing_witness.
-Proof. exact narrowing_refuted. Qed.
+Proof. exact (fun e d rp h1 h2 => no_silent_change e d rp h1 h2 gen_codec gen_codec_ok gen_all_checked). Qed.
 
 (* (3) a call that the front end accepts never makes encode_args panic.  [check_call] is the model of the
-       arity/type/const-ness check of type_check.rs + const_simplify.rs; [abi_of_params] of the mapfile
-       signature parser with validate().  Guards = the exact classes of the two recorded defects:
-       arguments are matched against non-padding parameters only (or no padding precedes a parameter),
-       and block sizes are nonzero (or bs=0 is rejected by the parser). *)
+       arity/type/const-ness check of type_check.rs + const_simplify.rs (arguments against the non-padding
+       parameters); [abi_of_params] of the mapfile signature parser with validate() (bs=0 rejected). *)
 Theorem C12_accepted_call_never_panics :
   forall (sjis_enc : list Z -> option bytes) lang_arg0 ps sig args has_regs st,
   abi_of_params gen_codec lang_arg0 ps = Some sig ->
-  cd_match_skips_padding gen_codec = true \/ trailing_pad_only sig = true ->
-  cd_bs_checked gen_codec = true \/ forallb bs_ok sig = true ->
   check_call gen_codec sig args = true ->
   is_panic (encode_args sjis_enc gen_codec has_regs sig args st) = false.
 Proof. exact accepted_call_never_panics_gen. Qed.
 
-(* on the tree as it is, both guards are needed: *)
-Theorem C12_call_typing_refuted : cd_match_skips_padding gen_codec = false -> calltyping_witness.
-Proof. exact calltyping_refuted. Qed.
-Theorem C12_bs_zero_refuted : cd_bs_checked gen_codec = false -> bszero_witness.
-Proof. exact bszero_refuted. Qed.
-
 (* (4) intrinsic placement: the positions that IntrinsicInstrAbiParts::from_abi computes (counting padding)
-       are exactly the non-padding positions of the signature, so IntrinsicBuilder::into_vec cannot panic
-       -- once it allocates for them, or when no padding precedes a parameter. *)
+       are exactly the non-padding positions of the signature, and IntrinsicBuilder::into_vec allocates for
+       them, so it cannot panic -- for every intrinsic kind and every signature, padding anywhere. *)
 Theorem C12_intrinsic_placement_total : forall k sig p b t,
-  cd_place_with_padding gen_codec = true \/ trailing_pad_only sig = true ->
   from_abi k sig = Ok p ->
   (match b_jump b with Some _ => true | None => false end) = (match ap_jump p with Some _ => true | None => false end) ->
   length (b_plain b) = length (ap_plain p) -> length (b_outputs b) = length (ap_outputs p) ->
   (exists outs, zip_outputs (b_outputs b) (ap_outputs p) = Ok outs) ->
   exists args, into_vec gen_codec p b t = Ok args.
-Proof. exact (into_vec_total gen_codec). Qed.
+Proof. exact (fun k sig p b t => into_vec_total gen_codec k sig p b t (or_introl gen_place_with_padding)). Qed.
 
-Theorem C12_intrinsic_placement_refuted : cd_place_with_padding gen_codec = false -> placement_witness.
-Proof. exact placement_refuted. Qed.
-
-(* (5) a fifth defect found by the correspondence: nulless + furibug *)
+(* (5) a defect found by the correspondence, still open: nulless + furibug *)
 Theorem C12_nulless_furibug_refuted : cd_nulless_furibug_rejected gen_codec = false -> nullessfuri_witness.
 Proof. exact nullessfuri_refuted. Qed.
 
